@@ -143,9 +143,9 @@ def finish (a : Acc) : Bool × Bool × List String :=
     else match firstDiff impl model with
       | none => (true, [])
       | some (i, x, y) => (false, [s!"obs#{i} impl[{x}] model[{y}]"])
-  let mon := monitor a.n cfg.tol cfg.subTimeout a.implEv.toList
-  let judgeOk := a.parseOk && mon.bad.isEmpty
-  (corr.1 && a.parseOk, judgeOk, (mon.bad.reverse.map (s!"judge:{·}")) ++ corr.2 ++ a.notes)
+  let bad := violations a.n cfg.tol cfg.subTimeout a.implEv.toList
+  let judgeOk := a.parseOk && bad.isEmpty
+  (corr.1 && a.parseOk, judgeOk, (bad.map (s!"judge:{·}")) ++ corr.2 ++ a.notes)
 
 def main : IO UInt32 := do
   let lines ← readLines (← IO.getStdin)
